@@ -6,7 +6,7 @@ import os
 ROOT = os.path.dirname(os.path.dirname(os.path.abspath(__file__)))
 
 CLAIMS = {
- "C16": ("Implementation-level sweep over the offline tools for every blob/index produced by random histories (validate_blob, validate_index, read_index accept and report exactly the blob's headers; a v0 image migrates back byte for byte; damaged copies are rejected; recovery with and without skipping validates, keeps every intact record before the damage / after an isolated damaged record, and the recovered blob is served by a storage) on top of the L5 byte theorems of Props/C05.lean (codec round-trips, CRC window, altered_never_served); the Lean byte model of reader/writer/recovery/migration with Props/C16.lean (validate_accepts_produced, recover_prefix/skip/addressable, migrate_preserves) is in progress.",
+ "C16": ("Implementation-level sweep over the offline tools for every blob/index produced by random histories (validate_blob, validate_index, read_index accept and report exactly the blob's headers; a v0 image migrates back byte for byte; damaged copies are rejected; recovery with and without skipping validates, keeps every intact record before the damage / after an isolated damaged record, and the recovered blob is served by a storage) on top of the L5 byte theorems of Props/C05.lean (codec round-trips, CRC window, altered_never_served); and the Lean byte model of reader/writer/recovery/migration (Model/Tools.lean) with Props/C16.lean: validate_accepts_produced, validate_rejects_truncated / _flip_data / _flip_header / _flip_magic, recover_prefix, recover_skip, recover_addressable (the output is blobBytes of the surviving records, hence served by the storage with original bytes via load_roundtrip), migrate_preserves, tools_total.",
          "4/C16", "flips of record-header length fields are not generated (bincode would allocate the claimed length and abort the process); skipping past a header with damaged size fields needs resynchronisation and is outside the generated damage",
          "Lean 4 proofs over the byte model + tool sweep on the implementation"),
  "C17": ("Lean 4 theorems: layout_pinned / constants_pinned (every serialized struct layout and format constant extracted from the CURRENT source by the translator equals the snapshot taken from the pinned release), the decode/encode round-trips of the record header, blob header (Props/C05), index file (Props/C09 load_build, bytes_length) and bloom/range images (Props/C10), aHash constants. Tie: a committed corpus of directories written by the pinned release (key sizes 4/8/33/128, bloom on/off, markers, metadata, stale and fresh indexes, a two-level tree): for every directory and several subsets of removed index files the generating history is replayed on the model and the current code, the directory is swapped for the pinned one and every recorded query must answer as recorded; foreign key size / blob version / index version opens are checked against the property's rejection clause.",
@@ -86,7 +86,7 @@ def main():
         }],
         "checks": checks,
         "not_applicable": na,
-        "notes": "fix: commits in /repo: a311110 (C15 E1), 0b3a5fc (C04/C11 E2), 33c2a77 (C13 E3), 2eb3c52 (C03 E4), 1b4c650 (C12 E13), 225d28c (C07/C03 E9), 0ede233 (C12 E14), e937426 (C16 E5), 9bcfef8 (C11 E10), 310988c (C11 E15), 5a4cce7 (C11 E16); see known_findings.json and DESIGN.md section 5",
+        "notes": "fix: commits in /repo: a311110 (C15 E1), 0b3a5fc (C04/C11 E2), 33c2a77 (C13 E3), 2eb3c52 (C03 E4), 1b4c650 (C12 E13), 225d28c (C07/C03 E9), 0ede233 (C12 E14), e937426 (C16 E5), 9bcfef8 (C11 E10), 310988c (C11 E15), 5a4cce7 (C11 E16), 5a608af (C06 E17); see known_findings.json and DESIGN.md section 5",
     }
     json.dump(m, open(os.path.join(ROOT, 'MANIFEST.json'), 'w'), indent=1)
 
